@@ -22,6 +22,7 @@ PROP = "C01"
 SCHEMA_SDL = """
 type Query { f(a: String, i: Int = 3, l: [Int!], o: In, e: Color): String  g: G  n: Int!  lst: [G!]  u: U  it: I }
 type Mutation { m(x: Int!): Int }
+type Subscription { f: String  g: G }
 type G implements I { x: Int  nn: Int!  g: G  s: String }
 interface I { x: Int }
 union U = G
@@ -193,7 +194,12 @@ SOURCES = [
     "{ g { nn } }", "{ n }", "query ($o: In) { f(o: $o) }", "query ($l: [Int!]) { f(l: $l) }", "query ($e: Color) { f(e: $e) }",
     "{ unknown }", "{ f(zzz: 1) }", "{ f", "", "   ", "\ufeff", "{ f(a: \"\\", "{ f(a: \"\\u12", "fragment F on Query { f }", "{ ...F }",
     "{ ...F } fragment F on Query { ...F }", "mutation { ...F } fragment F on Mutation { ...F }", "subscription { ...A } fragment A on Query { ...B } fragment B on Query { ...A }",
-    "mutation { ...F @defer } fragment F on Mutation { m(x: 1) @stream ...F }", "subscription { f }", "{ __typename __schema { types { name } } }", "{ f @skip(if: $nope) }",
+    "mutation { ...F @defer } fragment F on Mutation { m(x: 1) @stream ...F }",
+    # directives that the executor knows (stream / defer / skip / include) at places and with arguments validation has to cope with
+    "{ u { __typename @stream } }", "{ u { ... on G @stream { x } } it { ...F2 @stream } } fragment F2 on I { x }", "{ __typename @stream g { __typename @stream(if: 1) } }",
+    "subscription { ... @defer(if: null) { f } }", "subscription { ... @defer(label: 1) { f } ...F3 @defer(if: \"x\") } fragment F3 on Query { f }",
+    "subscription { f @skip(if: null) }", "{ f @skip(if: null) @include(if: 1) }", "{ lst @stream(initialCount: -1) { x } }", "{ lst @stream(initialCount: \"a\", label: 5) { x } ... @defer(label: [1]) { f } }",
+    "mutation { m(x: 1) @stream ... @defer(if: $nope) { m(x: 2) } }", "subscription { f }", "{ __typename __schema { types { name } } }", "{ f @skip(if: $nope) }",
     "query ($v: Nope) { f }", "type T { a: Int }", "query ($v: ID, $i: Float, $x: Boolean) { f(a: $v) }", "query ($o: [In!]!, $e: [[Color]]) { f }",
     "query ($v: String = \"d\", $x: Int! = 1, $l: [Int!] = [1], $o: In = {a: 2}, $i: Int) { f(a: $v, i: $i, l: $l, o: $o) m: f(i: $x) }", "{ f(a: $v) }", "query ($v: String!) { f(a: $v) }", "{ g { g { g { g { nn } } } } }",
 ]
